@@ -315,10 +315,13 @@ def ok_facts(F, body, restrict_edges=frozenset()):
     out = []
     if not sites:
         return out
+    # under a partition the compared expressions are evaluated on the restricted CFG: a length chosen by a match arm and
+    # compared once after the join (`let need = match kind {..}; if len < need`) is then the chosen arm's value
+    qb = body.restricted(restrict_edges) if restrict_edges else body
     for bi, bl in enumerate(body.blocks):
         if bl['cl'] or bl['t'][0] != 'switch':
             continue
-        for tb, lab, f in cond_facts(F, body, bi):
+        for tb, lab, f in cond_facts(F, qb, bi):
             e = (bi, tb, lab)
             if e in restrict_edges:
                 continue
